@@ -42,7 +42,7 @@ NameSets == <<{<<97>>, <<65>>, <<98>>},                                         
 ValueSets == <<{<<118>>},
                {<<118>>, <<119, 44, 120>>, <<32, 118>>},                            \* v  w,x  " v" (invalid for add)
                {<<118>>, <<119>>},
-               {<<118>>, <<32, 118>>}>>
+               {<<118>>, <<>>, <<32, 118>>}>>                                        \* v  ""  " v" (invalid for add)
 BadLineSet == {<<110, 111>>, <<58, 118>>, <<13, 10>>, <<>>, <<97, 32, 58, 118>>}    \* "no" ":v" CRLF "" "a :v"
 Names == NameSets[NameSel]
 Values == ValueSets[ValueSel]
@@ -64,6 +64,13 @@ Lower(x) == IF x >= 65 /\ x <= 90 THEN x + 32 ELSE x
 Norm(n) == [i \in 1..Len(n) |-> IF i = 1 \/ n[i - 1] = 45 THEN Upper(n[i]) ELSE Lower(n[i])]
 
 ----------------------------------------------------------------------------
+StripEol(s) == IF Len(s) >= 1 /\ s[Len(s)] = 10
+                 THEN IF Len(s) >= 2 /\ s[Len(s) - 1] = 13 THEN SubSeq(s, 1, Len(s) - 2) ELSE SubSeq(s, 1, Len(s) - 1)
+                 ELSE s
+Strip(s) == LET a == SelectInSeq(s, LAMBDA x : x \notin WS)
+                b == SelectLastInSeq(s, LAMBDA x : x \notin WS)
+            IN IF a = 0 THEN <<>> ELSE SubSeq(s, a, b)
+
 (* multimap operations on a value mm of the shape of m *)
 Idx(mm, k) == SelectInSeq(mm, LAMBDA e : e.k = k)
 Has(mm, k) == Idx(mm, k) # 0
@@ -73,7 +80,10 @@ AddTo(mm, k, v) == IF Has(mm, k) THEN [mm EXCEPT ![Idx(mm, k)].vs = Append(@, v)
 SetIn(mm, k, v) == IF Has(mm, k) THEN [mm EXCEPT ![Idx(mm, k)].vs = <<v>>]
                    ELSE Append(mm, [k |-> k, vs |-> <<v>>])
 DelFrom(mm, k) == SelectSeq(mm, LAMBDA e : e.k # k)
-ExtendLast(mm, k, part) == [mm EXCEPT ![Idx(mm, k)].vs = [@ EXCEPT ![Len(@)] = @ \o part]]
+(* a continuation line is joined to the last value with one SP; optional whitespace around a field
+   value is never part of it, so the result is trimmed (matters when the old value or the
+   continuation is empty) *)
+ExtendLast(mm, k, part) == [mm EXCEPT ![Idx(mm, k)].vs = [@ EXCEPT ![Len(@)] = Strip(@ \o <<32>> \o part)]]
 Join(vs) == IF vs = <<>> THEN <<>> ELSE FoldLeft(LAMBDA acc, v : acc \o <<44>> \o v, Head(vs), Tail(vs))
 Keys(mm) == [i \in 1..Len(mm) |-> mm[i].k]
 (* get_all(): (name, value) pairs in order *)
@@ -84,13 +94,6 @@ Bool(b) == IF b THEN <<<<1>>>> ELSE <<<<0>>>>
 
 ----------------------------------------------------------------------------
 (* line parsing *)
-StripEol(s) == IF Len(s) >= 1 /\ s[Len(s)] = 10
-                 THEN IF Len(s) >= 2 /\ s[Len(s) - 1] = 13 THEN SubSeq(s, 1, Len(s) - 2) ELSE SubSeq(s, 1, Len(s) - 1)
-                 ELSE s
-Strip(s) == LET a == SelectInSeq(s, LAMBDA x : x \notin WS)
-                b == SelectLastInSeq(s, LAMBDA x : x \notin WS)
-            IN IF a = 0 THEN <<>> ELSE SubSeq(s, a, b)
-
 (* s = [m, last, err]: effect of one header line on a map *)
 PLApply(s, line) ==
     LET t == StripEol(line) IN
@@ -99,10 +102,7 @@ PLApply(s, line) ==
       THEN IF s.last = <<>> THEN [s EXCEPT !.err = "HTTPInputError"]
            ELSE LET part == Strip(t) IN
                 IF ~ValidValue(part) THEN [s EXCEPT !.err = "HTTPInputError"]
-                (* an obs-fold is replaced by SP and trailing whitespace is not part of the value:
-                   a whitespace-only continuation leaves the value unchanged *)
-                ELSE IF part = <<>> THEN [s EXCEPT !.err = "none"]
-                ELSE [s EXCEPT !.m = ExtendLast(s.m, s.last, <<32>> \o part), !.err = "none"]
+                ELSE [s EXCEPT !.m = ExtendLast(s.m, s.last, part), !.err = "none"]
       ELSE LET cp == SelectInSeq(t, LAMBDA x : x = 58) IN
            IF cp = 0 THEN [s EXCEPT !.err = "HTTPInputError"]
            ELSE LET n == SubSeq(t, 1, cp - 1)
